@@ -507,7 +507,7 @@ def compute_batch_ranking(
 ]:
     """Enrich the feature space and compute the batch importances"""
 
-    input_dataframe = pd.DataFrame(line_tmp_storage, columns=column_descriptions)
+    input_dataframe = pd.DataFrame(line_tmp_storage, columns=column_descriptions, dtype=object)
     pbar.set_description('Control features')
 
     if args.feature_set_focus:
